@@ -3,12 +3,16 @@
    `run` of Builder.build_tree, its big-step reading `bigs`, json.build_tree, to_obj, copy) is hand-written
    and tied to /repo by the correspondence harness (harness/pC18.py: corr_C18 / holds_C18 by vm_compute).
 
-   Domain of the faithfulness theorems: dictionary keys are scalars and set elements are scalars or sets
-   (`hashable_positions`; outside it: D18, D28 - refutation witnesses below), no instances of custom
-   classes (`has_objects g = false`: the proofs do not cover PObj, hence the suffix _partial; the model does,
-   and the harness checks it), Python's own invariants (`python_wf`: keys of one dict pairwise unequal).
-   That json.build_tree / BasicBuilder / pydiff build the same tree is proved on an example and checked on
-   every generated case by clause ClSameTree of holds_C18, not proved in general. *)
+   Domain of the faithfulness theorems (a), (b): dictionary keys and set elements are scalars or (frozen)sets,
+   and under the strategies that sort the pairs only the first key may be a set (`key_positions o g`); by
+   C18_domain_boundary this is exactly "outside the classes of the open findings D18 and D28" (refutation
+   witnesses below); Python's own invariants (`python_wf_keys`: keys of one dict pairwise unequal, attribute
+   names distinct; `python_hashable`: no list/dict as key or element); instances of custom classes only with
+   pydiff's builder (`has_objects g = false \/ b = PyObjB`: BasicBuilder raises NotImplementedError on them,
+   json.build_tree ValueError).  They keep the suffix _partial because of the D18/D28 carve-out.
+   The cycle theorem (c) is proved on the smaller domain `hashable_positions` / `python_wf` (keys are
+   scalars; contained in the former: C18_domain_contains): for cyclic graphs with frozenset keys it is missing.
+   json.build_tree = BasicBuilder = pydiff is proved on json.build_tree's domain (C18_entry_points). *)
 From Coq Require Import String List Bool ZArith.
 Require Import GT.PyBase GT.BuilderSpec GT.BuilderModel GT.BuilderProofs.
 Import ListNotations.
@@ -28,31 +32,60 @@ Theorem C18_terminates : forall b o g, check_cycles o = true -> forall root fuel
   /\ run_builder b o g fuel root <> OutOfFuel.
 Proof. exact BuilderProofs.machine_terminates. Qed.
 
-(* (a) acyclic graphs (any size, depth, sharing), every builder, every option set: the machine halts with a
-   tree t, to_obj t is the plain value of the graph, copy t = t (structurally, and for Python's ==: tree_pyeq),
+(* (a) acyclic graphs (any size, depth, sharing; instances of classes with pydiff's builder), every option
+   set: the machine halts with a tree t, to_obj t is the plain value of the graph (norm v' = v literally, hence
+   the executable clause same_value of holds_C18), copy t = t (structurally, and for Python's ==: tree_pyeq),
    no placeholder *)
 Theorem C18_acyclic_partial : forall b o g,
-  hashable_positions g = true -> python_wf g = true -> has_objects g = false ->
+  key_positions o g = true -> python_wf_keys g = true -> (has_objects g = false \/ b = PyObjB) ->
   forall d root v, unfold d g root = Some v ->
   exists t n v',
     (forall fuel, (n <= fuel)%nat -> run_builder b o g fuel root = Built t)
-    /\ to_obj t = ROk v' /\ norm v' = v /\ copy t = t /\ tree_pyeq (copy t) t = true
+    /\ to_obj t = ROk v' /\ norm v' = v /\ same_value v' v = true
+    /\ copy t = t /\ tree_pyeq (copy t) t = true
     /\ has_placeholder t = false.
 Proof. exact BuilderProofs.acyclic_faithful. Qed.
 
+(* the same with the finding classes as carve-outs (the executable predicates the harness classifies with) *)
+Theorem C18_acyclic_outside_findings : forall c b,
+  python_hashable (c_graph c) = true -> python_wf_keys (c_graph c) = true ->
+  kf_unhashable_key c = false -> kf_container_key_sort c = false ->
+  (has_objects (c_graph c) = false \/ b = PyObjB) ->
+  forall d v, unfold d (c_graph c) (c_root c) = Some v ->
+  exists t n v',
+    (forall fuel, (n <= fuel)%nat -> run_builder b (c_opts c) (c_graph c) fuel (c_root c) = Built t)
+    /\ to_obj t = ROk v' /\ same_value v' v = true
+    /\ copy t = t /\ tree_pyeq (copy t) t = true /\ has_placeholder t = false.
+Proof. exact BuilderProofs.acyclic_faithful_outside_findings. Qed.
+
+(* the domain is bounded exactly by the two findings, and contains the scalar-keys domain *)
+Theorem C18_domain_boundary : forall c,
+  python_hashable (c_graph c) = true -> kf_unhashable_key c = false -> kf_container_key_sort c = false ->
+  key_positions (c_opts c) (c_graph c) = true.
+Proof. exact BuilderProofs.key_positions_boundary. Qed.
+
+Theorem C18_domain_contains : forall o g, hashable_positions g = true ->
+  key_positions o g = true /\ (python_wf g = true -> python_wf_keys g = true).
+Proof.
+  intros o g H. split; [exact (BuilderProofs.key_positions_of_hashable o g H)
+                       |exact (BuilderProofs.python_wf_keys_of g H)].
+Qed.
+
 (* (b) sharing without cycles: never a cycle error, never a placeholder, whatever the fuel *)
 Theorem C18_shared_partial : forall b o g,
-  hashable_positions g = true -> python_wf g = true -> has_objects g = false ->
+  key_positions o g = true -> python_wf_keys g = true -> (has_objects g = false \/ b = PyObjB) ->
   forall root, acyclic g root ->
   forall fuel, run_builder b o g fuel root <> Raised ECycle
                /\ (forall t, run_builder b o g fuel root = Built t -> has_placeholder t = false).
 Proof. exact BuilderProofs.shared_not_cycle. Qed.
 
 (* (c) cycle checking on, a cycle is reachable: cycle error, or (cycles ignored) a tree with a placeholder,
-   which is its own deep copy (structurally, and for Python's ==) *)
+   which is its own deep copy (structurally, and for Python's ==).  With pydiff's builder this includes cycles
+   that run through instances of classes only (C18_obj_cycle_example): the all-grandchildren-are-leaves
+   shortcut of build_tree is modelled through the expander (is_leaf_item), as the code does. *)
 Theorem C18_cyclic_partial : forall b o g,
   check_cycles o = true ->
-  hashable_positions g = true -> python_wf g = true -> has_objects g = false -> closed g = true ->
+  hashable_positions g = true -> python_wf g = true -> (has_objects g = false \/ b = PyObjB) -> closed g = true ->
   forall root, lookup g root <> None -> reaches_cycle g root ->
   forall fuel, (fuel_bound b o g root <= fuel)%nat ->
     (ignore_cycles o = false -> run_builder b o g fuel root = Raised ECycle)
@@ -71,14 +104,80 @@ Theorem C18_builders_agree : forall o g, has_objects g = false -> forall fuel ro
   run_builder BasicB o g fuel root = run_builder PyObjB o g fuel root.
 Proof. exact BuilderProofs.builders_agree. Qed.
 
+(* all entry points build the same tree on the domain where json.build_tree is defined and no open finding
+   applies: no sets, no instances, keys int/float/bool/str (json_supported), no bytes (D31), acyclic (D32);
+   every option set, every builder, every sufficient fuel *)
+Theorem C18_entry_points : forall o g,
+  json_supported g = true -> has_bytes g = false ->
+  forall root, acyclic g root ->
+  exists t n, json_run o g root = Built t
+    /\ forall b fuel, (n <= fuel)%nat -> run_builder b o g fuel root = json_run o g root.
+Proof. exact BuilderProofs.entry_points_agree. Qed.
+
+(* the same for the function the correspondence check evaluates for each entry point (model_run) *)
+Theorem C18_entry_points_model : forall o g,
+  json_supported g = true -> has_bytes g = false ->
+  forall root, acyclic g root ->
+  exists t, forall ep, model_run ep o g root = Built t.
+Proof. exact BuilderProofs.entry_points_model. Qed.
+
+(* (a') with exactly the fuel the correspondence check gives the model *)
+Theorem C18_acyclic_model_partial : forall b o g,
+  key_positions o g = true -> python_wf_keys g = true -> (has_objects g = false \/ b = PyObjB) ->
+  forall d root v, unfold d g root = Some v ->
+  exists t v',
+    run_builder b o g (fuel_bound b o g root) root = Built t
+    /\ to_obj t = ROk v' /\ norm v' = v /\ same_value v' v = true
+    /\ copy t = t /\ tree_pyeq (copy t) t = true
+    /\ has_placeholder t = false.
+Proof. exact BuilderProofs.acyclic_faithful_model. Qed.
+
+(* the executable statement (fails_entry: what holds_C18 evaluates on the implementation's output) has no
+   violated clause on the model's prediction: acyclic inputs of the domain, all option sets; inputs reaching
+   a cycle when cycles are checked (scalar-keys domain).  Together with corr_C18 (implementation = model,
+   checked per case) this is the whole argument for the two builder entry points. *)
+Theorem C18_model_holds_acyclic_partial : forall ep o g root,
+  ep <> EJson -> defined_on ep g = true ->
+  key_positions o g = true -> python_wf_keys g = true -> acyclic g root ->
+  fails_entry o g root ep (observe (model_run ep o g root)) = [].
+Proof. exact BuilderProofs.model_holds_acyclic. Qed.
+
+Theorem C18_model_holds_cyclic_partial : forall ep o g root,
+  ep <> EJson -> defined_on ep g = true -> check_cycles o = true ->
+  hashable_positions g = true -> python_wf g = true -> closed g = true ->
+  lookup g root <> None -> reaches_cycle g root ->
+  fails_entry o g root ep (observe (model_run ep o g root)) = [].
+Proof. exact BuilderProofs.model_holds_cyclic. Qed.
+
+(* the depth |g|+1 used by the executable statement (fails_entry) decides acyclicity: if any depth unfolds the
+   graph, that one does, to the same value *)
+Theorem C18_unfold_depth_complete : forall g d root v,
+  unfold d g root = Some v -> unfold (unfold_depth g) g root = Some v.
+Proof. exact BuilderProofs.unfold_depth_complete. Qed.
+
+(* the executable comparison of values is reflexive (links `norm v' = v` to clause ClValue) *)
+Theorem C18_same_value_refl : forall read original, norm read = original -> same_value read original = true.
+Proof. exact BuilderProofs.same_value_of_norm. Qed.
+
 (* non-vacuity *)
 Theorem C18_shared_example :
   hashable_positions g_shared = true /\ python_wf g_shared = true /\ has_objects g_shared = false
+  /\ key_positions o_default g_shared = true /\ python_wf_keys g_shared = true
   /\ acyclic g_shared 0
   /\ (edge g_shared 0 1 /\ edge g_shared 2 1 /\ edge g_shared 5 1)
   /\ exists t, run_builder BasicB o_default g_shared (fuel_bound BasicB o_default g_shared 0) 0 = Built t
                /\ has_placeholder t = false.
 Proof. exact BuilderProofs.shared_example. Qed.
+
+(* {frozenset({1, 2}): 3, "a": frozenset()}: inside the domain, outside the scalar-keys domain *)
+Theorem C18_fset_key_example :
+  key_positions o_default g_fset_key = true /\ key_positions o_ignore g_fset_key = true
+  /\ python_wf_keys g_fset_key = true /\ hashable_positions g_fset_key = false /\ acyclic g_fset_key 0
+  /\ exists t v, run_builder BasicB o_default g_fset_key (fuel_bound BasicB o_default g_fset_key 0) 0 = Built t
+       /\ to_obj t = ROk v
+       /\ v = VDict [(VMSet [VScalar (SInt 1); VScalar (SInt 2)], VScalar (SInt 3)); (VScalar (SStr "a"), VMSet [])]
+       /\ unfold 3 g_fset_key 0 = Some v.
+Proof. exact BuilderProofs.fset_key_example. Qed.
 
 Theorem C18_cyclic_example :
   hashable_positions g_mutual = true /\ python_wf g_mutual = true /\ has_objects g_mutual = false
@@ -87,6 +186,31 @@ Theorem C18_cyclic_example :
   /\ exists t, run_builder BasicB o_ignore g_mutual (fuel_bound BasicB o_ignore g_mutual 0) 0 = Built t
                /\ has_placeholder t = true.
 Proof. exact BuilderProofs.cyclic_example. Qed.
+
+Theorem C18_obj_cycle_example :
+  hashable_positions g_obj_ring = true /\ python_wf g_obj_ring = true /\ has_objects g_obj_ring = true
+  /\ closed g_obj_ring = true /\ lookup g_obj_ring 0 <> None /\ reaches_cycle g_obj_ring 0
+  /\ run_builder PyObjB o_default g_obj_ring (fuel_bound PyObjB o_default g_obj_ring 0) 0 = Raised ECycle
+  /\ (exists t, run_builder PyObjB o_ignore g_obj_ring (fuel_bound PyObjB o_ignore g_obj_ring 0) 0 = Built t
+                /\ has_placeholder t = true)
+  /\ hashable_positions g_obj_self = true /\ python_wf g_obj_self = true /\ closed g_obj_self = true
+  /\ reaches_cycle g_obj_self 0
+  /\ run_builder PyObjB o_default g_obj_self (fuel_bound PyObjB o_default g_obj_self 0) 0 = Raised ECycle
+  /\ (exists t, run_builder PyObjB o_ignore g_obj_self (fuel_bound PyObjB o_ignore g_obj_self 0) 0 = Built t
+                /\ has_placeholder t = true).
+Proof. exact BuilderProofs.obj_cycle_example. Qed.
+
+Theorem C18_acyclic_obj_example :
+  key_positions o_default g_obj_shared = true /\ python_wf_keys g_obj_shared = true /\ has_objects g_obj_shared = true
+  /\ acyclic g_obj_shared 0 /\ (edge g_obj_shared 0 1 /\ edge g_obj_shared 4 1)
+  /\ exists t v, run_builder PyObjB o_default g_obj_shared (fuel_bound PyObjB o_default g_obj_shared 0) 0 = Built t
+               /\ has_placeholder t = false /\ to_obj t = ROk v
+               /\ unfold 5 g_obj_shared 0 = Some (norm v).
+Proof. exact BuilderProofs.acyclic_obj_example. Qed.
+
+Theorem C18_entry_points_domain_example :
+  json_supported g_json_shared = true /\ has_bytes g_json_shared = false /\ acyclic g_json_shared 0.
+Proof. exact BuilderProofs.entry_points_domain_example. Qed.
 
 Theorem C18_entry_points_example :
   json_supported g_json_shared = true /\
@@ -99,13 +223,19 @@ Proof. exact BuilderProofs.entry_points_example. Qed.
 Theorem C18_refuted_tuple_key :                      (* D18 *)
   python_wf g_tuple_key = true /\ has_objects g_tuple_key = false /\ acyclic g_tuple_key 0
   /\ hashable_positions g_tuple_key = false
+  /\ python_wf_keys g_tuple_key = true /\ python_hashable g_tuple_key = true
+  /\ key_positions o_default g_tuple_key = false /\ key_positions o_ignore g_tuple_key = false
   /\ exists t, run_builder BasicB o_default g_tuple_key (fuel_bound BasicB o_default g_tuple_key 0) 0 = Built t
                /\ to_obj t = RErr "TypeError".
 Proof. exact BuilderProofs.acyclic_refuted_tuple_key. Qed.
 
 Theorem C18_refuted_container_keys :                 (* D28 *)
   acyclic g_set_keys 0 /\ hashable_positions g_set_keys = false
-  /\ run_builder BasicB o_default g_set_keys (fuel_bound BasicB o_default g_set_keys 0) 0 = Raised ETypeError.
+  /\ python_wf_keys g_set_keys = true /\ python_hashable g_set_keys = true
+  /\ key_positions o_default g_set_keys = false
+  /\ run_builder BasicB o_default g_set_keys (fuel_bound BasicB o_default g_set_keys 0) 0 = Raised ETypeError
+  /\ key_positions o_ignore g_set_keys = true
+  /\ exists t, run_builder BasicB o_ignore g_set_keys (fuel_bound BasicB o_ignore g_set_keys 0) 0 = Built t.
 Proof. exact BuilderProofs.acyclic_refuted_container_keys. Qed.
 
 (* formerly D29 / D30, repaired in /repo: copies of trees with custom objects / placeholders are equal *)
@@ -136,4 +266,16 @@ Print Assumptions C18_shared_partial.
 Print Assumptions C18_cyclic_partial.
 Print Assumptions C18_acyclic_no_cycle.
 Print Assumptions C18_builders_agree.
+Print Assumptions C18_acyclic_outside_findings.
+Print Assumptions C18_domain_boundary.
+Print Assumptions C18_domain_contains.
+Print Assumptions C18_refuted_container_keys.
+Print Assumptions C18_entry_points.
+Print Assumptions C18_entry_points_model.
+Print Assumptions C18_acyclic_model_partial.
+Print Assumptions C18_model_holds_acyclic_partial.
+Print Assumptions C18_model_holds_cyclic_partial.
+Print Assumptions C18_unfold_depth_complete.
+Print Assumptions C18_same_value_refl.
+Print Assumptions C18_obj_cycle_example.
 Print Assumptions C18_refuted_tuple_key.
